@@ -548,17 +548,22 @@ def check_layer(case, res, viol, fq, im, n, fl, L, cls, feat, io_n, sb, sp, is_l
             skip.append((not exact) and q.near_half(qv, abs(qv) / 2 ** 21 + q.TINY))
         add('w bits=%d w=%s' % (pw, rl(F(v) for v in ch)), kind='ints', real=[int(v) for v in Wr[c]], skip=skip,
             what='stored integer weights')
-    # stored weights vs un-stuffed ones: identical, or zero-stuffed along the dilated axis (MATCH)
-    if is_conv and bname == 'MATCH' and tuple(fl.dilation) != (1, 1):
-        ax = 0 if fl.dilation[0] != 1 else 1
-        d = fl.dilation[ax]
-        rows = W.reshape(-1, fl.kernel_size[ax])
-        rows_i = Wi.reshape(-1, Wi.shape[2 + ax])
+    # stored weights = the quantizer's integer output, zero-stuffed along the dilated axis for MATCH (d = 1: as is)
+    if is_conv:
+        ax = 1 if fl.dilation[1] != 1 else 0
+        d = fl.dilation[ax] if bname == 'MATCH' else 1
+        rows = W.transpose(2, 3).reshape(-1, W.shape[2]) if ax == 0 else W.reshape(-1, W.shape[3])
+        rows_i = Wi.transpose(2, 3).reshape(-1, Wi.shape[2]) if ax == 0 else Wi.reshape(-1, Wi.shape[3])
+    else:
+        d, rows, rows_i = 1, W, Wi
+    if rows.shape[0] != rows_i.shape[0]:
+        add('stuff d=%d w=[]' % d, kind='str', real='stored weight tensor of shape %s' % (tuple(Wi.shape),),
+            what='stored weights vs quantizer output')
+    else:
         for r in range(min(rows.shape[0], 6)):
             add('stuff d=%d w=%s' % (d, rl(int(v) for v in rows[r].tolist())), kind='ints',
-                real=[int(v) for v in rows_i[r].tolist()], skip=None, what='zero-stuffed kernel row')
-    elif ok_int and (tuple(Wi.shape) != tuple(W.shape) or not bool(torch.equal(Wi, W))):
-        bad('stored-weights', 'stored weights differ from the quantizer\'s integer output')
+                real=[int(v) if v == int(v) else v for v in rows_i[r].tolist()], skip=None,
+                what='stored (zero-stuffed) kernel row vs quantizer output')
     # integer bias
     if fl.bias is not None:
         bl = fl.bias.detach().tolist()
@@ -579,10 +584,8 @@ def check_layer(case, res, viol, fq, im, n, fl, L, cls, feat, io_n, sb, sp, is_l
         what='scale / shift of _integer_approximation')
     # scaled bias as stored: fl32(n_b * scale)
     if not last:
-        want = [float(q.f32(Fr(b * s))) for b, s in zip(nb, S)]
-        if L.add_bias.detach().reshape(-1).tolist() != want:
-            bad('stored-scaled-bias', 'add_bias %r is not fl32(int_bias*scale) %r'
-                % (L.add_bias.detach().reshape(-1).tolist()[:3], want[:3]))
+        add('sb s=%s nb=%s' % (rl(S), rl(nb)), kind='sb', real=L.add_bias.detach().reshape(-1).tolist(),
+            what='stored scaled bias = float32 of int_bias*scale')
     # outputs on the integer activations of the integer network itself
     accM = chan_lists(acc, CAP)
     if not last:
@@ -742,6 +745,9 @@ def compare(chk, cmp, ans, stats):
             chk.corr(case, 'near-tie', 'near-tie', cmp['what'])
         else:
             chk.corr(case, 'scale=%s shift=%d' % (list(S), sh), 'scale=%s shift=%d' % (ms, msh), cmp['what'])
+    elif kind == 'sb':
+        model = q.parse_ints(ans)
+        chk.corr(case, str([v + 0.0 for v in cmp['real']]), str([float(q.f32(Fr(v))) + 0.0 for v in model]), cmp['what'])
     elif kind == 'str':
         chk.corr(case, cmp['real'], ans, cmp['what'])
 
@@ -754,7 +760,7 @@ def direct_lines(rng, quick):
     from plinio.methods.mps.quant.backends.match.nn import MATCHConv2d, MATCHLinear
     from plinio.methods.mps.quant.backends.maupiti.nn import MAUPITIConv2d, MAUPITILinear
     out = []
-    n = 400 if quick else 4000
+    n = 400 if quick else 8000
     for i in range(n):
         sh = rng.randint(0, 31)
         hi = 2 ** rng.choice([1, 3, 7, 15, 23])
@@ -771,7 +777,7 @@ def direct_lines(rng, quick):
             real = 'recursion'
         out.append({'line': 'bs div=%s low=1 high=%d x=%s' % (rs(Fr(1, 2 ** sh)), hi, rs(F(x))), 'kind': 'str',
                     'real': real, 'what': 'binary_search', 'layer': 'binary_search'})
-    n = 60 if quick else 600
+    n = 60 if quick else 1500
     for i in range(n):
         cout = rng.choice([1, 1, 2, 3, 5])
         kind = rng.choice(['rand', 'rand', 'dyadic', 'tiny', 'huge', 'bigbias', 'mixed'])
@@ -798,6 +804,11 @@ def direct_lines(rng, quick):
         else:
             sb, sp = MAUPITI_SB, MAUPITI_SP
             fn = (MAUPITIConv2d if which.endswith('conv') else MAUPITILinear)._integer_approximation
+        # the code evaluates its 32-bit guard in float32 (a product within 128 of 2^31 is rounded onto it): keep the
+        # generated products away from that window, where exact and float32 comparison differ (reported separately)
+        if any(abs(abs(b * s) - 2 ** 31) <= 2 ** 12 for b in bs for t in ts for sh in range(sp)
+               for s in [min(max(math.ceil(F(t) * 2 ** sh), 1), 2 ** (sb - 1))]):
+            continue
         fake = types.SimpleNamespace(scale_bit=sb, shift_pos=sp)
         try:
             S, sh = fn(fake, torch.tensor(ts, dtype=torch.float32), torch.tensor(1.), torch.tensor(1.),
@@ -847,7 +858,7 @@ MATCH_OPTS = [{}, {'scale_bit': 16, 'shift_pos': 16}, {'scale_bit': 24, 'shift_p
 
 def gen_cases(rng, quick, mult=1):
     cases = []
-    n = (60 if quick else 600) * mult
+    n = (60 if quick else 2000) * mult
     feats = ['dil0', 'dil1', None, None, 'sym', None]
     for i in range(n):
         spec = gen_net(rng, feats[i % len(feats)])
@@ -866,6 +877,23 @@ def gen_cases(rng, quick, mult=1):
     return cases
 
 
+def observe_float_guard(chk):
+    """not demanded by the property for ordinary inputs: the 32-bit guard is evaluated in float32"""
+    import torch
+    from plinio.methods.mps.quant.backends.match.nn import MATCHLinear
+    fake = types.SimpleNamespace(scale_bit=24, shift_pos=24)
+    try:
+        S, sh = MATCHLinear._integer_approximation(fake, torch.tensor([2.0 ** -8]), torch.tensor(1.), torch.tensor(1.),
+                                                   torch.tensor([2.0 ** 31]))
+        if int(S[0]) * 2 ** 31 > 2 ** 31 - 1:
+            chk.observe('the 32-bit guard of _integer_approximation is evaluated in float32 (int_bias * scale is a float32 '
+                        'tensor compared with float32(2^31)): an adversarial int_bias*scale in [2^31, 2^31+128] is accepted '
+                        '(int_bias 2^31, target 2^-8 -> scale %d, shift %d); the model compares exact integers and the '
+                        'generators stay 2^12 away from that window' % (int(S[0]), int(sh[0])))
+    except Exception:
+        pass
+
+
 def run(chk):
     from .. import common
     chk.rule = ('networks: 1-4 conv blocks from {3x3 (pad 0/1), 3x3 stride 2, 1x1, depthwise 3x3 + pointwise, dilated (k,1) '
@@ -882,6 +910,7 @@ def run(chk):
                        'accumulator is recomputed in float64); torch.fx tracing of integerize_arch; MPS export')
     chk.level = 'proof'
     chk.prove()
+    observe_float_guard(chk)
     stats = {'skipped': 0, 'compared': 0, 'near_tie': 0, 'by': {}}
     direct = direct_lines(chk.rng, chk.quick)
     cases = gen_cases(chk.rng, chk.quick)
